@@ -33,3 +33,110 @@ pub fn commit_with_array_conflict() {
     let _ = state(&a.m);
     sym::reach(1);
 }
+
+use melda::melda::Melda;
+use serde_json::Map;
+
+/// every public operation is called once in the given state; errors are fine, panics and lock re-acquisition
+/// are not. The operations that change the state come last.
+fn exercise(r: &mut Rep, other: &Rep) {
+    let m = &r.m;
+    let _ = m.read(None);
+    let ids: Vec<String> = m.get_all_objects().into_iter().collect();
+    for id in &ids {
+        let w = m.get_winner(id);
+        let _ = m.read(Some(id.as_str()));
+        let _ = m.get_conflicting(id);
+        let _ = m.get_value(id, None);
+        if let Ok(w) = w {
+            let _ = m.get_value(id, Some(&w));
+            let _ = m.get_parent_revision(id, &w);
+        }
+    }
+    let _ = m.in_conflict();
+    let _ = m.has_staging();
+    let _ = m.get_anchors();
+    for a in m.get_anchors() {
+        let _ = m.get_delta(&a);
+    }
+    let st = m.stage().expect("stage");
+    let _ = m.meld(&other.m);
+    let _ = m.stage_full_snapshot();
+    let _ = m.read(None);
+    let _ = m.replay_stage(&st);
+    let _ = m.refresh_is_refused_or_ok();
+}
+
+trait RefreshProbe {
+    fn refresh_is_refused_or_ok(&self) -> bool;
+}
+impl RefreshProbe for Melda {
+    fn refresh_is_refused_or_ok(&self) -> bool {
+        // reload is `&self`; with staged changes it must refuse, otherwise succeed
+        match self.reload() {
+            Ok(()) => true,
+            Err(_) => self.has_staging(),
+        }
+    }
+}
+
+/// params: [state kind 0..5, k orders]
+pub fn all_operations() {
+    let kind = sym::param(0);
+    let k = sym::param(1) as usize;
+    let (mut a, mut b) = base_pair(doc_with(&["a", "b"], &["x".to_string(), "y".to_string()], "t"));
+    match kind {
+        0 => {
+            // fresh, empty replicas
+            a = Rep::new();
+            b = Rep::new();
+        }
+        1 => {
+            // staged changes incl. a deletion and a re-creation
+            a.m.update(any_doc(k, 0)).expect("update");
+            a.m.update(any_doc(k, 0)).expect("update");
+        }
+        2 => {
+            // committed linear history with a deleted object
+            a.m.update(doc_with(&["b"], &["y".to_string()], "t")).expect("update");
+            a.m.commit(None).expect("commit");
+            a.m.update(any_doc(k, 0)).expect("update");
+            a.m.commit(None).expect("commit");
+        }
+        3 | 4 => {
+            // object and array conflicts pending (4: plus a staged resolution)
+            a.m.update(any_doc(k, 1)).expect("update a");
+            a.m.commit(None).expect("commit a");
+            b.m.update(doc_with(&["b", "a", "c"], &["y".to_string(), "w".to_string(), "z".to_string()], "t")).expect("update b");
+            b.m.commit(None).expect("commit b");
+            a.pull(&b);
+            if kind == 4 {
+                for id in a.m.in_conflict() {
+                    let w = a.m.get_winner(&id).expect("winner");
+                    let _ = a.m.resolve_as(&id, &w);
+                }
+            }
+        }
+        _ => {
+            // after time travel to the first block
+            a.m.update(any_doc(k, 0)).expect("update");
+            a.m.commit(None).expect("commit");
+            let first = b.m.get_anchors();
+            a.m.reload_until(&first).expect("reload_until");
+        }
+    }
+    exercise(&mut a, &b);
+    // state changing operations
+    let d = a.m.read(None).unwrap_or_else(|_| Map::new());
+    if !d.is_empty() {
+        a.m.update(d).expect("update with the current document");
+    }
+    let _ = a.m.delete_object("a");
+    let _ = a.m.delete_object("nonexistent");
+    let _ = a.m.commit(None).expect("commit");
+    let _ = a.m.unstage();
+    let _ = a.m.refresh();
+    let _ = a.m.reload();
+    let _ = a.m.read(None);
+    sym::reach(1);
+}
